@@ -3,6 +3,15 @@ families = correspondence families (harness `gen <fam>`) with quick-tier op coun
 monitor = number of monitor cases in the quick tier (harness `monitor <id>`)."""
 
 PROPS = {
+    "C14": {
+        "families": {"bankstate": 64, "panic": 12000},
+        "monitor": 600,
+        "assumptions": [
+            "Anchor evaluates every `constraint = …` of a #[derive(Accounts)] struct before the handler runs and aborts on the first failure (validated by real dispatch in the C14 monitor)",
+            "the set of fund-moving / position-changing instructions is the list `fundMoving` written out in Mfi/Props/C14.lean; theorem every_struct_with_mut_account_is_classified shows that every other struct with a mutable marginfi account is a bracket/flag/emissions-accounting instruction",
+            "reduce-only collateral counting zero for initial health is part of the risk-engine model (C04)",
+        ],
+    },
     "C06": {
         "ix_monitor": 8000,
         "families": {"bank": 12000, "curve": 12000},
@@ -72,6 +81,12 @@ _NOTE = ("Trusted: Lean kernel; axioms propext/Classical.choice/Quot.sound only 
          "and by diffing model vs real code on generated operations. ")
 
 MANIFEST_TEXT = {
+    "C14": {
+        "text": "Machine-checked Lean 4 theorems: (a) on the model of validate_bank_state, diffed exhaustively (all 16 cells) against the real function: killed banks refuse every kind, deposit/borrow kind refuses paused and reduce-only, withdraw/repay/liquidate/bankruptcy kind refuses paused only; (b) by decide over tables REGENERATED from the Rust source on every run: each handler calls validate_bank_state with the required kind before any share-moving call (13 handlers incl. integrations), every one of the 23 fund-moving/position-changing instruction structs carries the !is_protocol_paused constraint on its group, and every other struct with a mutable marginfi account is classified as a non-moving bracket/flag instruction; (c) the cached pause gate is closed while a propagated pause is in force and open from start+1800 on without any update. The C14 monitor replays the (instruction x bank state) and (instruction x pause timing incl. the exact expiry second, propagated or not) matrices through real dispatch.",
+        "design_ref": "DESIGN.md §4 C14",
+        "note": _NOTE + "One genuine defect found and repaired (fix: 7b45cc41).",
+        "technique": "Lean 4 proof: decide over source-generated constraint/skeleton tables + model theorems; exhaustive correspondence; real-dispatch matrix replay",
+    },
     "C06": {
         "text": "Machine-checked Lean 4 theorems: for every bank state and every accepted rate configuration a successful accrue_interest never decreases either share value, leaves share totals untouched, never decreases a fee bucket, adds zero program fees when disabled for the group, sets last_update = now, is a no-op at dt = 0 (and hence when repeated at the same time), and only moves last_update when either side is empty. 'Applied first' is a theorem (by decide) over handler skeletons REGENERATED from the Rust source on every run: accrue_interest precedes every share-moving call in deposit/withdraw/borrow/repay/close_balance/handle_bankruptcy and both banks' accruals precede every position change in liquidate. The accrual model is diffed against the real Bank::accrue_interest (~12k cases/run); after every successful real instruction (real dispatch) last_update = clock, monotonicity and fee non-negativity are monitored.",
         "design_ref": "DESIGN.md §4 C06",
